@@ -33,7 +33,7 @@ func checkC08(P *Prog, r *Result) {
 		mcGlobal:  "package-level variables are shared between goroutines",
 		mcFreeVar: "closure captures live as long as the schema and are shared between goroutines",
 	})
-	r.floor("C08/write-effects", 150)
+	r.floor("C08/write-effects", 80)
 
 	// no-go: no goroutines, channels, or sync primitives other than Pool.Get/Put
 	nGo := 0
@@ -64,7 +64,7 @@ func checkC08(P *Prog, r *Result) {
 			r.ok("C08/no-go", fname(fn), P.pos(fn.Pos()), "no go/channel/sync use")
 		}
 	}
-	r.floor("C08/no-go", 150)
+	r.floor("C08/no-go", 80)
 
 	// single-owner: a pooled object is only ever stored into local or per-call memory
 	for _, fn := range fns {
@@ -104,7 +104,7 @@ func checkC08(P *Prog, r *Result) {
 			}
 		})
 	}
-	r.floor("C08/single-owner", 8)
+	r.floor("C08/single-owner", 4)
 	P.checkReleaseInto(r, "C08/single-owner-release")
 	P.checkReleaseMultiplicity(r, "C08/single-owner-multiplicity")
 
@@ -159,7 +159,7 @@ func (P *Prog) checkReleaseInto(r *Result, rule string) {
 		r.Obls = append(r.Obls, o)
 		r.Instances[rule]++
 	}
-	r.floor(rule, 80)
+	r.floor(rule, 40)
 	for f := range tmp.FuncsSeen {
 		r.sawFunc(f)
 	}
@@ -183,7 +183,7 @@ func checkC19(P *Prog, r *Result) {
 		mcSchema: "the schema must behave identically on every later use",
 		mcInput:  "Parse must not modify the data it is given",
 	})
-	r.floor("C19/no-schema-or-input-writes", 150)
+	r.floor("C19/no-schema-or-input-writes", 80)
 
 	// (b) default-not-aliased
 	nb := 0
@@ -241,7 +241,7 @@ func checkC19(P *Prog, r *Result) {
 			}
 		}
 	}
-	r.floor("C19/default-not-aliased", 10)
+	r.floor("C19/default-not-aliased", 5)
 
 	// (c) validate-mode destination writes only on default / catch paths
 	var vfns []*ssa.Function
@@ -297,7 +297,7 @@ func checkC19(P *Prog, r *Result) {
 			r.ok("C19/validate-write-sites", fname(fn), P.pos(fn.Pos()), fmt.Sprintf("%d destination write(s), all under a default/catch guard", nw))
 		}
 	}
-	r.floor("C19/validate-write-sites", 10)
+	r.floor("C19/validate-write-sites", 5)
 }
 
 func destWriteName(w writeSite) string {
